@@ -14,6 +14,7 @@
 package fschannel
 
 import (
+	"bytes"
 	"fmt"
 	"os"
 	"time"
@@ -100,6 +101,25 @@ func (f *rotateFile) Write(p []byte) (int, error) {
 			if p[j] == '\n' {
 				break
 			}
+		}
+
+		if j == 0 && p[0] != '\n' {
+			// no line ends within the space that is left in this file
+			if f.pos > 0 {
+				// continue in a fresh file
+				if err := f.rotate(); err != nil {
+					return written, err
+				}
+				continue
+			}
+
+			// the file is empty and the line is longer than the maximum
+			// size: it has to be written as a whole
+			k := bytes.IndexByte(p, '\n')
+			if k < 0 {
+				break
+			}
+			j = int64(k)
 		}
 
 		n, err := f.f.Write(p[:j])
